@@ -42,8 +42,12 @@ class SubtreesTrie(Generic[T]):
 
         if root_path is not None:
             self.root_path: str = path_to_trie_key(root_path)
+            # A path element may occupy more than one character of the key; thus,
+            # we have to remember the number of path elements of the root path.
+            self.root_path_len: int = len(root_path)
         else:
             self.root_path: str = ""
+            self.root_path_len: int = 0
 
     def __setitem__(self, key: Path, value: Tuple[Path, T]):
         assert is_path(key)
@@ -63,7 +67,7 @@ class SubtreesTrie(Generic[T]):
         return [
             (
                 value := self.trie[self.root_path + suffix],
-                (value[0][len(self.root_path) - 1 :], value[1]),
+                (value[0][self.root_path_len :], value[1]),
             )[-1]
             for suffix in self.trie.suffixes(self.root_path)
         ]
@@ -74,7 +78,7 @@ class SubtreesTrie(Generic[T]):
                 trie_key_to_path(chr(1) + suffix),
                 (
                     value := self.trie[self.root_path + suffix],
-                    (value[0][len(self.root_path) - 1 :], value[1]),
+                    (value[0][self.root_path_len :], value[1]),
                 )[-1],
             )
             for suffix in self.trie.suffixes(self.root_path)
@@ -85,13 +89,40 @@ class SubtreesTrie(Generic[T]):
         return SubtreesTrie(init_trie=self.trie, root_path=new_root_path)
 
 
+# The trie alphabet consists of the characters chr(0) to chr(29). 0-bytes are ignored
+# by the trie, and chr(1) is reserved for marking the start of a key (representing the
+# empty path). Path elements (child indices) below `SINGLE_CHAR_ELEMENTS` are encoded
+# by the single character chr(i + 2). All larger elements are encoded by the escape
+# character chr(29), followed by `ESCAPED_ELEMENT_DIGITS` "digits" (most significant
+# first) to the base `SINGLE_CHAR_ELEMENTS`. This encoding is prefix-free, such that
+# the keys of the sub trie for a path are exactly the keys starting with the key of
+# that path, and order preserving, such that keys are ordered according to a pre-order
+# traversal.
+SINGLE_CHAR_ELEMENTS = 27
+ESCAPE_CHAR = chr(SINGLE_CHAR_ELEMENTS + 2)
+ESCAPED_ELEMENT_DIGITS = 4
+
+
+def path_elem_to_trie_key(elem: int) -> str:
+    if elem < SINGLE_CHAR_ELEMENTS:
+        return chr(elem + 2)
+
+    elem -= SINGLE_CHAR_ELEMENTS
+    assert elem < SINGLE_CHAR_ELEMENTS**ESCAPED_ELEMENT_DIGITS
+
+    return ESCAPE_CHAR + "".join(
+        chr((elem // SINGLE_CHAR_ELEMENTS**exp) % SINGLE_CHAR_ELEMENTS + 2)
+        for exp in reversed(range(ESCAPED_ELEMENT_DIGITS))
+    )
+
+
 def path_to_trie_key(path: Path) -> str:
     # 0-bytes are ignored by the trie ==> +1
     # To represent the empty part, reserve chr(1) ==> +2
     if not path:
         return chr(1)
 
-    return chr(1) + "".join([chr(i + 2) for i in path])
+    return chr(1) + "".join([path_elem_to_trie_key(i) for i in path])
 
 
 def trie_key_to_path(key: str) -> Path:
@@ -103,4 +134,18 @@ def trie_key_to_path(key: str) -> Path:
     if key == chr(1):
         return ()
 
-    return tuple([ord(c) - 2 for c in key if ord(c) != 1])
+    result = []
+    chars = [ord(c) - 2 for c in key if ord(c) != 1]
+    idx = 0
+    while idx < len(chars):
+        if chars[idx] < SINGLE_CHAR_ELEMENTS:
+            result.append(chars[idx])
+            idx += 1
+        else:
+            elem = 0
+            for digit in chars[idx + 1 : idx + 1 + ESCAPED_ELEMENT_DIGITS]:
+                elem = elem * SINGLE_CHAR_ELEMENTS + digit
+            result.append(elem + SINGLE_CHAR_ELEMENTS)
+            idx += 1 + ESCAPED_ELEMENT_DIGITS
+
+    return tuple(result)
